@@ -276,10 +276,17 @@ class Trimesh(Geometry3D):
         # and repair the winding: this is done before the cache is
         # locked as every step needs values for the current faces
         if validate:
+            # vertex normals live in the cache which is emptied as soon as a
+            # face is removed or re-wound: they still have to decide
+            # which vertices may be merged so hold on to them
+            vertex_normals = self._cache["vertex_normals"]
             # get a mask with only unique and non-degenerate faces
             mask = self.unique_faces() & self.nondegenerate_faces()
             self.update_faces(mask)
             self.fix_normals()
+            if vertex_normals is not None and "vertex_normals" not in self._cache:
+                # the vertices have not been touched yet
+                self.vertex_normals = vertex_normals
 
         # normals are kept across the lock below, so make sure
         # they don't predate an in- place edit of the arrays
